@@ -168,27 +168,7 @@ def run(ctx):
 
     # ---------------- R04.1 declared types demand an empty binding
     r1 = ctx.rule('R04.1', 'declared-type checks reject a non-empty binding')
-    feed = fns.get(('src/parser.rs', 'feed'))
-    n_sites = 0
-    if feed:
-        for m, ps in find_nodes(feed['body'], lambda y: y.get('k') == 'match' and y['expr'].get('k') == 'mcall' and y['expr']['method'] == 'bind_in_assignment'):
-            n_sites += 1
-            none_err = some_nonempty_err = False
-            for a in m['arms']:
-                p = a['pat'].get('s') or ''
-                g = flat_src(a['guard']) if a.get('guard') else ''
-                is_err = bool(find_nodes(a['body'], lambda y: y.get('k') == 'return')) and 'Err' in flat_src(a['body'])
-                if re.fullmatch(r'\s*None\s*', p) and is_err:
-                    none_err = True
-                if p.replace(' ', '').startswith('Some(') and 'is_empty()' in g and g.startswith('!') and is_err:
-                    some_nonempty_err = True
-            ok = none_err and some_nonempty_err
-            r1.inst({'site': 'parser.rs:%d' % m['line'], 'rejects_None': none_err, 'rejects_nonempty_bind': some_nonempty_err}, ok=ok, kind=m['line'] - feed['line'])
-            if not ok:
-                r1.fail('feed/declared-type-%d' % n_sites, 'src/parser.rs:%d' % m['line'], 'a declared type is checked with bind_in_assignment but a non-empty binding (a generic left to be bound) is not rejected')
-    if n_sites < 2:
-        r1.fail('anchor/declared-sites', 'src/parser.rs', 'expected the two declared-type checks (let, function output)')
-    r1.need(2)
+    declared_type_table(ctx, r1)
 
     # ---------------- R04.2 zips
     r2 = ctx.rule('R04.2', 'every zip of two runtime-length lists is preceded by a length test on the same lists')
@@ -476,3 +456,75 @@ def bind_merge(ctx, r6):
         r6.fail('anchor/rebind-site', 'src/xtype.rs', 'no re-binding site (insert after a successful lookup of bound_generics) found: Bind::mix not recognised')
     r6.need(3)
 
+
+
+def declared_type_table(ctx, r1):
+    """R04.1 as a decision table (abstract evaluation on the MIR): wherever the parser checks a value against a declared type
+    with bind_in_assignment and can answer with a *TypeMismatch error, the continuation is evaluated for the three possible
+    results -- no binding, a binding that is empty, a binding that still binds a generic -- and must reject, accept, reject."""
+    from .lib import absint, mirq
+    from .lib.facts import strip_generics, callee_name
+    mir = ctx.mir
+    n = 0
+    for b in mir.bodies:
+        if b.file != 'src/parser.rs':
+            continue
+        errs = {i for i, j, s in b.stmts() if s['k'] == 'assign' and s['rv']['k'] == 'agg' and (s['rv'].get('adt') or '').endswith('CompilationError')
+                and s['rv'].get('v') in ('VariableTypeMismatch', 'FunctionOutputTypeMismatch')}
+        if not errs:
+            continue
+        for bb, tm in b.calls():
+            if not strip_generics(callee_name(tm) or '').endswith('XType::bind_in_assignment') or tm.get('target') is None:
+                continue
+            # only sites whose continuation can construct one of the mismatch errors
+            if not (b.reachable(tm['target']) & errs):
+                continue
+            n += 1
+            outcomes = {}
+            for scen, val, empty in (('no binding', 'none', None), ('empty binding', ('some', ('adt', 'Bind', 'B')), True), ('binding of a generic', ('some', ('adt', 'Bind', 'B')), False)):
+                def oracle(t2, vals, env, empty=empty):
+                    nm = strip_generics(callee_name(t2) or '')
+                    if nm.endswith('Bind::is_empty'):
+                        return empty if empty is not None else absint.UNKNOWN
+                    return absint.UNKNOWN
+
+                def event(kind, ebb, idx, node, env, R):
+                    if kind == 'stmt' and ebb in errs and node['k'] == 'assign' and node['rv']['k'] == 'agg' and node['rv'].get('v') in ('VariableTypeMismatch', 'FunctionOutputTypeMismatch'):
+                        return 'reject'
+                    if kind == 'term' and node['k'] == 'call':
+                        nm = strip_generics(callee_name(node) or '')
+                        if re.search(r'CompilationScope::(into_static_ud|add_variable|add_static_func|add_func)$', nm):
+                            return 'accept'
+                    return None
+                rs = _returns_events(absint, mir, b, tm, val, oracle, event)
+                outcomes[scen] = rs
+            want = {'no binding': {'reject'}, 'empty binding': {'accept'}, 'binding of a generic': {'reject'}}
+            ok = all(outcomes[k] == want[k] for k in want)
+            r1.inst({'site': mirq.site(b, bb), 'outcomes': {k: sorted(v) for k, v in outcomes.items()}}, ok=ok, kind=(b.nid, n))
+            if not ok:
+                bad = [k for k in want if outcomes[k] != want[k]]
+                r1.fail('feed/declared-type-%d' % n, mirq.site(b, bb), 'a value checked against a declared type: with %s the declaration is %s (expected %s): a generic left to be bound by the value is not rejected, or a fitting value is'
+                        % (bad[0], '/'.join(sorted(outcomes[bad[0]])) or 'neither accepted nor rejected', '/'.join(want[bad[0]])))
+    if n < 2:
+        r1.fail('anchor/declared-sites', 'src/parser.rs', 'expected the two declared-type checks (let, function output)')
+    r1.need(2)
+
+
+def _returns_events(absint, mir, b, call_term, result_value, call_oracle, event_of):
+    """run the continuation of one call with a chosen abstract result; closures handed to Option adaptors and small local helpers
+    are evaluated by absint's own oracle (borrowed from absint.returns through a one-off Region)"""
+    events = set()
+
+    def ev(kind, bb, idx, node, env, R):
+        e = event_of(kind, bb, idx, node, env, R)
+        if e is not None:
+            events.add(e)
+        return e
+    R = absint.region_with_std_oracle(mir, b, call_oracle, ev)
+    absint.CURRENT.append(R)
+    try:
+        env = R.assign({}, call_term['dest'], result_value)
+        R.run(call_term['target'], env)
+    finally:
+        absint.CURRENT.pop()
+    return events
